@@ -1,8 +1,8 @@
 (* C19 — property theorems only (statements + [exact]); proofs are in Proofs.v.
    [step true]/[run true] is the code as repaired in /repo (remove deletes the height key of the
    removed group); [step false] is remove as originally written (Put(key(count), pre.Id)). *)
-From Coq Require Import List NArith.
-From V.C19 Require Import Model Proofs Sched.
+From Coq Require Import List NArith Lia.
+From V.C19 Require Import Model Proofs Sched KeyModel KeyProofs Extra.
 Import ListNotations.
 Local Open Scope N_scope.
 
@@ -120,6 +120,126 @@ Theorem C19_schedules_locked_needs_id_binding :
   map rets (snd r) = [[0]; [0; 0]] /\ ~ Spec rg0 (fst r).
 Proof. exact locked_needs_id_binding. Qed.
 Print Assumptions C19_schedules_locked_needs_id_binding.
+
+(* The same with environment events between the steps of the threads: sqlite rows lost at any moment
+   and a process exit at any moment between two steps (every goroutine gone, initGroupChain on the files). *)
+Theorem C19_schedules_locked_env : forall g0, genesis_ok g0 -> forall pre_of s ts evs,
+  InvC g0 pre_of s -> Forall (thread_ok pre_of) ts ->
+  let s' := fst (crun_env true g0 s ts evs) in InvC g0 pre_of s' /\ Spec g0 s'.
+Proof. exact locked_schedules_env. Qed.
+Print Assumptions C19_schedules_locked_env.
+
+(* ---- readers that do not take the lock (Count(), LastGroup()) ----
+   Between operations Count() = LastGroup().GroupHeight + 1. *)
+Theorem C19_count_is_last_height_plus_one : forall P g0 s, InvP P g0 s -> count s = gheight (last s) + 1.
+Proof. exact inv_count_last. Qed.
+Print Assumptions C19_count_is_last_height_plus_one.
+
+(* Inside save (remove) count is assigned before lastGroup: each field read alone has its value of the
+   state before or after the operation ... *)
+Theorem C19_lockfree_fields : forall s g,
+  (count (save_mid s g) = count (save s g) /\ last (save_mid s g) = last s) /\
+  (forall pg, get_by_id s (gpre g) = Some pg ->
+     count (remove_mid s g) = count (fst (remove true s g)) /\ last (remove_mid s g) = last s).
+Proof. intros s g. split; [apply lf_save_fields|intros pg; apply lf_remove_fields]. Qed.
+Print Assumptions C19_lockfree_fields.
+
+(* ... but the pair read between the two assignments belongs to no state between operations. *)
+Theorem C19_lockfree_pair_refuted :
+  (let s := init wg0 in
+   lf_read (save_mid s wg1) = (2, set_height wg0 0) /\
+   forall s', InvW wg0 s' -> lf_read s' <> lf_read (save_mid s wg1)) /\
+  (let s := fst (run true wg0 (init wg0) [Add wg1]) in
+   lf_read (remove_mid s (last s)) = (1, set_height wg1 1) /\
+   forall s', InvW wg0 s' -> lf_read s' <> lf_read (remove_mid s (last s))).
+Proof. split; [exact lockfree_pair_refuted|exact lockfree_pair_remove_refuted]. Qed.
+Print Assumptions C19_lockfree_pair_refuted.
+
+(* ---- the key space (KeyModel.v: LevelDB keys as byte strings) ----
+   32-byte ids and fewer than HMAX = 0x6763757272656e74 groups: the four kinds of keys cannot collide
+   (generateKey(HMAX) = "gcurrent"). *)
+Theorem C19_keys_disjoint_32 : forall (i j : bytes) (h h' : N),
+  length i = 32%nat -> length j = 32%nat -> h < HMAX -> h' < HMAX ->
+  i <> be8 h /\ i <> GCUR /\ i <> GCNT /\ be8 h <> GCUR /\ be8 h <> GCNT /\ GCUR <> GCNT /\
+  (be8 h = be8 h' -> h = h') /\ i <> [].
+Proof. exact keys_disjoint_32. Qed.
+Print Assumptions C19_keys_disjoint_32.
+
+(* The chain's keys (prefix "group") and the fork scratch DB's keys (prefix "groupFork", same LevelDB)
+   cannot collide. *)
+Theorem C19_chain_fork_keys_disjoint : forall k k' : bytes,
+  (length k = 32 \/ length k = 8 \/ length k = 6)%nat ->
+  (length k' = 32 \/ length k' = 8 \/ length k' = 11 \/ length k' = 24)%nat ->
+  PFX ++ k <> PFXF ++ k'.
+Proof. exact chain_fork_keys_disjoint. Qed.
+Print Assumptions C19_chain_fork_keys_disjoint.
+
+(* Under these conditions every primitive that computes a key behaves on the byte-level store as the
+   model's typed maps do (R = the byte-level state represents the model state): AddGroup/save, remove,
+   Has, lookup by id and by height.  All other operations are compositions of these. *)
+Theorem C19_keys_refine : forall jb idb,
+  (forall i j, idb i = idb j -> i = j) -> idb 0 = [] -> (forall i, i <> 0 -> length (idb i) = 32%nat) ->
+  forall bs s g, R idb bs s -> gid g <> 0 -> count s + 1 < HMAX ->
+  (R idb (fst (b_add_group bs (gb idb g))) (fst (add_group s g)) /\
+   snd (b_add_group bs (gb idb g)) = snd (add_group s g)) /\
+  (R idb (fst (b_remove bs (gb idb g))) (fst (remove true s g)) /\
+   snd (b_remove bs (gb idb g)) = snd (remove true s g)) /\
+  (forall i, b_by_id (bst bs) (idb i) = option_map (gb idb) (get_by_id s i)) /\
+  (forall h, h < HMAX -> b_by_height jb (bst bs) h = option_map (gb idb) (get_by_height s h)).
+Proof.
+  intros jb idb H1 H2 H3 bs s g HR Hg Hc. split; [|split; [|split]].
+  - apply refine_add; assumption.
+  - apply refine_remove; try assumption. lia.
+  - intros i. apply refine_by_id. exact HR.
+  - intros h Hh. apply refine_by_height; assumption.
+Qed.
+Print Assumptions C19_keys_refine.
+
+(* When an id does collide (only with a CheckGroup that accepts it): an 8-byte id equal to the height
+   key it is about to receive is accepted and its own record is overwritten (the last group cannot be
+   found by id, height 1 answers nothing although count = 2); an id equal to "gcount" (or "gcurrent",
+   or an occupied height key) is reported as already existing. *)
+Theorem C19_keys_collision_refuted :
+  (let r := b_add_group binit (mkBG (be8 1) [1] [1] 0) in
+   snd r = 0 /\ bcount (fst r) = 2 /\ bid (blast (fst r)) = be8 1 /\
+   b_by_id (bst (fst r)) (be8 1) = None /\ b_by_height wj (bst (fst r)) 1 = None) /\
+  (snd (b_add_group binit (mkBG GCNT [1] [1] 0)) = 1 /\ b_by_id (bst binit) GCNT = None) /\
+  (snd (b_add_group binit (mkBG (be8 0) [1] [1] 0)) = 1 /\ snd (b_add_group binit (mkBG GCUR [1] [1] 0)) = 1).
+Proof.
+  split; [exact collide_height_key_refuted|split; [exact collide_gcount_refuted|exact collide_existing_refuted]].
+Qed.
+Print Assumptions C19_keys_collision_refuted.
+
+(* ---- wrong or extra sqlite rows ----
+   refreshCache's loop on any table: every group it walks over gets its right row, every other hash
+   keeps whatever row it had. *)
+Theorem C19_refresh_walk_any_table : forall g0, genesis_ok g0 -> forall l gs,
+  chain g0 l -> (forall x, gs x = lookup l x) ->
+  forall r g q fuel, chain g0 (g :: r) -> incl (g :: r) l -> (length r < fuel)%nat ->
+  exists q', refresh_walk fuel gs g q = Some q' /\
+    forall x, sq_lookup q' x =
+      match lookup (g :: r) x with Some y => Some (gheight y) | None => sq_lookup q x end.
+Proof. exact refresh_walk_lookup. Qed.
+Print Assumptions C19_refresh_walk_any_table.
+
+(* It runs only when the row COUNT differs from the group count: a wrong row with the right count is
+   never repaired; an extra row makes the counts differ at every start and is never removed. *)
+Theorem C19_wrong_rows_refuted :
+  (let s := fst (run true wg0 (init wg0) [Add wg1; SetIndexRow 2 7; Restart]) in
+   count s = 2 /\ sq_count (sq (st s)) = 2 /\ sq_lookup (sq (st s)) 2 = Some 7 /\
+   option_map gheight (get_by_id s 2) = Some 1) /\
+  (let s := fst (run true wg0 (init wg0) [Add wg1; SetIndexRow 9 4; Restart; Restart]) in
+   count s = 2 /\ sq_count (sq (st s)) = 3 /\ sq_lookup (sq (st s)) 9 = Some 4 /\ get_by_id s 9 = None /\
+   sq_lookup (sq (st s)) 1 = Some 0 /\ sq_lookup (sq (st s)) 2 = Some 1).
+Proof. split; [exact wrong_row_same_count_refuted|exact extra_row_refuted]. Qed.
+Print Assumptions C19_wrong_rows_refuted.
+
+(* ---- triggerOnChain entered again after a pause = the uninterrupted triggerOnChain ---- *)
+Theorem C19_trigger_reentry : forall fx s anc done rest,
+  snd (trigger_on_chain fx s anc done) = true ->
+  trigger_reentry (fst (trigger_on_chain fx s anc done)) rest = trigger_on_chain fx s anc (done ++ rest).
+Proof. exact trigger_reentry_equiv. Qed.
+Print Assumptions C19_trigger_reentry.
 
 (* Non-vacuity: a history with add, remove, re-add of a different group at the same height, a fork
    switch, the loss of sqlite rows and restarts satisfies the hypotheses (the index is settled: the last
